@@ -115,6 +115,12 @@ def run():
     for j, (c, kern) in enumerate(ck.pick([(math.pi * 100, "tpcn"), (-math.e, "rwm")], [(math.pi * 100, "tpcn"), (-math.e, "rwm"), (1 / 3, "tpcn"), (-math.sqrt(2) * 300, "rwm")])):
         big = dict(target=["gauss2", "bimodal"][j % 2], N=256, n_total=4096, kernel=kern, resample=["mult", "syst"][j % 2], clustering=bool(j % 2), mode="vec")
         tasks.append(("tvf.checks.c10:cell", dict(cfg=big, c=float(c), seeds=[ck.subseed("big", j, r) % 10 ** 6 for r in range(4)]), None))
+    # more than 1024 particles through a vectorised likelihood
+    for j in range(ck.pick(1, 3)):
+        tasks.append(("tvf.checks.c10:cell", dict(cfg=dict(target="gauss2", N=[1100, 2049, 1025][j], n_total=[2200, 4098, 2050][j], kernel=["tpcn", "rwm"][j % 2], resample="syst",
+                                                           clustering=False, mode="vec"), c=float([-40.0, 333.3, 1e3][j]),
+                                                   seeds=[ck.subseed("bigvec", j, r) % 10 ** 6 for r in range(4)]), None))
+    nbig = ck.pick(1, 3)
     lp = [1 - 5e-5, 1 - 2 ** -14, 1 - 9.9e-5, 1 - 1e-6]
     npin = ck.pick(8, 48)
     for j in range(npin):
@@ -155,7 +161,7 @@ def run():
                     volume_variation=[None, 1.0][(j // 2) % 2])
         tasks.append(("tvf.checks.c10:cell", dict(cfg=cfgp, c=float([1e4, -3e4, 1e5, -2e5, 2500.0, -1000.0, 3e4, -1e5][j % 8]),
                                                    seeds=[ck.subseed("peak", j, r) % 10 ** 6 for r in range(4)]), None))
-    for i in range(len(tasks) - npin - n32 - nsup - nweak - npeak):
+    for i in range(len(tasks) - npin - n32 - nsup - nweak - npeak - nbig):
         if i % 3 == 1:     # a third of the small cells use an irrational shift as well
             tasks[i][1]["c"] = float(tasks[i][1]["c"] * math.sqrt(2) / 1.4)
     for i, st, val in farm.run(tasks, timeout=900, progress="C10"):
